@@ -1,3 +1,6 @@
+import json
+import zlib
+
 from inspect import getmodule
 from collections import abc
 from pathlib import Path
@@ -170,6 +173,9 @@ class Experiment:
         CobaContext.logger.log("Experiment Started")
 
         if result_file and Path(result_file).exists():
+            self._drop_partial_record(result_file)
+
+        if result_file and Path(result_file).exists() and Path(result_file).stat().st_size > 0:
             CobaContext.logger.log("Restoring Results")
             restored = Result.from_file(result_file)
         else:
@@ -232,6 +238,50 @@ class Experiment:
 
         except KeyError as e:
             raise TypeError(f'Experiment.__init__ missing required arguments')
+
+    def _drop_partial_record(self, result_file:str) -> None:
+        #An interrupted run can leave a final record that was only partly written. Records are
+        #written one line at a time (one gzip member per line for gz files) so whatever follows
+        #the last complete line (member) is removed. Otherwise the file can't be restored and
+        #the next record would be appended onto the unfinished line.
+        with open(result_file,'rb+') as f:
+            size = f.seek(0,2)
+            end  = 0
+
+            if ".gz" in result_file:
+                f.seek(0)
+                pos, data, member = 0, f.read(2**12), zlib.decompressobj(wbits=31)
+                while data:
+                    try:
+                        member.decompress(data)
+                    except zlib.error:
+                        break
+                    pos += len(data)
+                    if member.eof:
+                        end = pos = pos-len(member.unused_data)
+                        data, member = member.unused_data, zlib.decompressobj(wbits=31)
+                    else:
+                        data = b''
+                    data = data or f.read(2**12)
+            else:
+                pos = size
+                while pos > 0 and end == 0:
+                    start = max(0,pos-2**16)
+                    f.seek(start)
+                    last = f.read(pos-start).rfind(b'\n')
+                    if last >= 0: end = start+last+1
+                    pos = start
+
+                try:
+                    #a final record that only lacks its line feed is complete
+                    f.seek(end)
+                    if end < size and json.loads(f.read()):
+                        f.write(b'\n')
+                        end = size
+                except ValueError:
+                    pass
+
+            if end < size: f.truncate(end)
 
     def _check_for_cloudpickle_dependency(self) -> None:
         objs = set()
